@@ -61,6 +61,10 @@ type Exec struct {
 	qseq      int
 	havocAllOnCall bool
 	rangeOf   map[*ssa.Range]types.Type
+	distinct  map[[2]int]bool
+	freshSet  map[int]bool
+	recips    map[int]*smt.Term
+	oldSet    map[int]bool
 }
 
 func (x *Exec) axiom(t *smt.Term) {
@@ -92,11 +96,22 @@ func (x *Exec) oblige(kind, name string, guard, goal *smt.Term, pos token.Pos, t
 	if n := x.oblNames[name]; n > 1 {
 		name = fmt.Sprintf("%s~%d", name, n)
 	}
-	o := &Obligation{Name: name, Kind: kind, Guard: guard, Goal: goal, NHyps: len(x.hyps), Text: text, Soft: soft}
-	if pos.IsValid() {
-		o.Pos = x.prog.Fset.Position(pos).String()
+	parts := []*smt.Term{goal}
+	if goal.Op == "and" && len(goal.Args) <= 16 {
+		parts = goal.Args
 	}
-	x.obls = append(x.obls, o)
+	nh := len(x.hyps)
+	for i, g := range parts {
+		nm := name
+		if len(parts) > 1 {
+			nm = fmt.Sprintf("%s.%d", name, i)
+		}
+		o := &Obligation{Name: nm, Kind: kind, Guard: guard, Goal: g, NHyps: nh, Text: text, Soft: soft}
+		if pos.IsValid() {
+			o.Pos = x.prog.Fset.Position(pos).String()
+		}
+		x.obls = append(x.obls, o)
+	}
 	x.assume(guard, goal)
 }
 
@@ -412,11 +427,12 @@ func (x *Exec) execLoopUnroll(fr *Frame, l *loop, spec *LoopSpec, entry []*Edge,
 	var exits []*Edge
 	var layers []*Env
 	incoming := entry
+	symbolic := 0 // iterations whose continuation was not decided by constant folding
 	for it := 0; ; it++ {
 		if len(liveEdges(x, incoming)) == 0 {
 			break
 		}
-		if it >= k {
+		if symbolic >= k || it >= 400 {
 			// unwinding assertion: no further iteration is reachable
 			var cs []*smt.Term
 			for _, e := range incoming {
@@ -424,9 +440,9 @@ func (x *Exec) execLoopUnroll(fr *Frame, l *loop, spec *LoopSpec, entry []*Edge,
 			}
 			name := fmt.Sprintf("%sunwind@loop%d", fr.prefix, l.ordinal)
 			x.oblige("unwind", name, x.b.Or(cs...), x.b.False, l.header.Instrs[0].Pos(),
-				fmt.Sprintf("loop %d of %s fully unrolled after %d iterations", l.ordinal, fr.fn.Name(), k), !exact)
+				fmt.Sprintf("loop %d of %s fully unrolled after %d iterations", l.ordinal, fr.fn.Name(), it), !exact)
 			if !exact {
-				x.note(fmt.Sprintf("loop %d of %s has no invariant: unrolled %d times (bounded)", l.ordinal, fr.fn.String(), k))
+				x.note(fmt.Sprintf("loop %d of %s has no invariant: unrolled %d times (bounded)", l.ordinal, fr.fn.String(), it))
 			}
 			break
 		}
@@ -438,7 +454,11 @@ func (x *Exec) execLoopUnroll(fr *Frame, l *loop, spec *LoopSpec, entry []*Edge,
 			pending[l.header] = append(pending[l.header], &e2)
 		}
 		r := x.execRegionIter(fr, l, pending, layer)
-		exits = append(exits, r.exits...)
+		live := liveEdges(x, r.exits)
+		exits = append(exits, live...)
+		if len(live) > 0 && len(liveEdges(x, r.backs)) > 0 {
+			symbolic++
+		}
 		incoming = r.backs
 	}
 	return exits, layers
